@@ -115,6 +115,10 @@ def _near_sites(node, path, out):
         out.append((path, "const"))
     elif op in ("+", "-") and not guard and len(node) == 3:
         out.append((path, "op"))
+        if op == "-" and node[1] != node[2]:
+            # operands of a non-commutative operator exchanged: A - B next to B - A (twice: the site is rarer than constants)
+            out.append((path, "swap"))
+            out.append((path, "swap"))
     elif op == "fn" and node[1] in ("sin", "cos"):
         out.append((path, "fn"))
     for i, c in enumerate(node):
@@ -144,6 +148,8 @@ def _near_copy(g, e):
         node[1] = g.pick([v for v in (c - 1.0, c + 1.0, -c, 2.0 * c, c - 3.0) if v != c])
     elif what == "op":
         node[0] = "-" if node[0] == "+" else "+"
+    elif what == "swap":
+        node[1], node[2] = node[2], node[1]
     else:
         node[1] = "cos" if node[1] == "sin" else "sin"
     return e2
@@ -173,9 +179,22 @@ def gen_scalar(g, depth):
                 return ["idx", ["hess", ["input", inp["name"]], para or g.spacetime], i, j]
             return ["dx", ["input", inp["name"]], g.draw(st.integers(0, d - 1)), para]
         return ["idx", ["jac"], g.draw(st.integers(0, g.geo_dim - 1)), g.draw(st.integers(0, d - 1))]
-    k = g.pick(["+", "-", "*", "*", "/", "pow", "fn", "fn", "fnpair", "near", "inner", "tr", "det", "idxv", "neg"])
+    k = g.pick(["+", "-", "*", "*", "/", "pow", "fn", "fn", "fnpair", "near", "swap", "inner", "tr", "det", "idxv", "neg"])
+    if k == "swap":
+        # a difference of two compound operands next to the difference with the operands exchanged, (A - B) w and (B - A):
+        # equal up to the ORDER of the operands of a non-commutative operator, never to be shared
+        a = gen_scalar(g, max(depth - 1, 1))
+        b = gen_scalar(g, max(depth - 1, 1))
+        if a == b:
+            b = ["+", b, ["const", g.pick(NEAR_CONSTS)]]
+        d1, d2 = ["-", a, b], ["-", b, a]
+        if g.funcs_ok and g.chance(0.3):
+            f = g.pick(["sin", "cos", "abs"])
+            d1, d2 = ["fn", f, d1], ["fn", f, d2]
+        return [g.pick(["+", "-", "*"]), ["*", d1, gen_scalar(g, 0)], d2]
     if k == "near":
-        # two compound sub-expressions which differ in exactly ONE token (a constant, +/-, sin/cos, a derivative index):
+        # two compound sub-expressions which differ in exactly ONE token (a constant, +/-, sin/cos, a derivative index) or in
+        # the order of the operands of one difference:
         # they must never be merged or shared ("merged only if semantically identical")
         e = gen_scalar(g, max(depth - 1, 1))
         e2 = _near_copy(g, e)
